@@ -74,8 +74,8 @@ def _cbmc_watchdog(stop):
                     continue
                 try:
                     with open("/proc/%s/comm" % pid) as f:
-                        if f.read().strip() != "cbmc":
-                            continue
+                        if f.read().strip() not in ("cbmc", "kani-driver"):
+                            continue     # (kani-driver keeps the solver's JSON output of a whole batch in memory: seen at 29 GB)
                     with open("/proc/%s/status" % pid) as f:
                         m = re.search(r"VmRSS:\s+(\d+) kB", f.read())
                     if m and int(m.group(1)) > lim_kb:
